@@ -49,6 +49,9 @@ func report(c *vf.Ctx, r *run) {
 	for p := range r.patterns {
 		c.Count("pattern:"+p, 1)
 	}
+	for _, s := range r.shapes {
+		c.Distinct("idle_burst_shapes", s)
+	}
 	// a run is non-trivial if at least one element was delivered or prevented under observation; distinct by configuration + observed patterns
 	key := sp.key()
 	if r.cnt["cancel_rule_armed"] > 0 {
@@ -106,7 +109,7 @@ func report(c *vf.Ctx, r *run) {
 
 func child(c *vf.Ctx) {
 	switch c.Child {
-	case "batch", "stress", "cstress": // args: first index, count
+	case "batch", "stress", "cstress", "burst": // args: first index, count
 		first, _ := strconv.Atoi(c.ChildArgs[0])
 		n, _ := strconv.Atoi(c.ChildArgs[1])
 		for i := first; i < first+n; i++ {
@@ -114,6 +117,15 @@ func child(c *vf.Ctx) {
 			if c.Child == "stress" {
 				sp = genStress(c.Rand(fmt.Sprintf("stress/%d", i)), i)
 				c.Count("add_vs_shutdown_stress_runs", 1)
+			} else if c.Child == "burst" {
+				sp = genBurst(c.Rand(fmt.Sprintf("burst/%d", i)), i)
+				mark(c, fmt.Sprintf("burst run %d %s", i, sp.burstShape()))
+				report(c, runScript(sp))
+				c.Count("idle_burst_runs", 1)
+				if (i-first)%8 == 7 {
+					c.FlushStats()
+				}
+				continue
 			} else if c.Child == "cstress" {
 				sp = genCancelStress(c.Rand(fmt.Sprintf("cstress/%d", i)), i)
 				c.Count("cancel_vs_start_stress_runs", 1)
@@ -317,7 +329,7 @@ func parent(c *vf.Ctx) {
 		c.Count("evaluations", 0)
 		return
 	}
-	c.SetRule("a run drives one real timed.Queue / Executor / TaskExecutor: either a scripted gated schedule (re-schedule an identifier while its callback is held at a gate; Cancel(id) while the callback is held; Cancel while a worker is parked in Poll's select holding the element, before and after Shutdown; Cancel of an element in the heap; size bound filled without a poller; bounded queue (max 1-3) kept full behind gated workers, then a pending identifier re-scheduled with an earlier/equal/later time, or a new element added after a Cancel freed a slot; every entry point (ExecuteAt / ExecuteAfter) as first and as rescheduling call of one identifier with instants/delays from {far negative, -1ns, 0, +1ns, small, far future, zero Time, past} behind gated workers and on an idle executor; far-future (year 2262 boundary +-1 s, 3000, 9999), far-past (before 1677, year 1, zero Time) and UTC / fixed-zone / no-monotonic representations mixed with due elements in one heap, added in seeded order while all workers are gated; every Shutdown flag combination with pending elements) or a seeded random history (1-4 clients x 3-8 operations: Add/ExecuteAt with offsets -5..+40 ms, element Cancel, Cancel(id), gate openings, jitter; 1-4 workers; max size 0/2/5; every flag combination; Shutdown after or concurrent with the clients), plus timer-free stress histories for one window (2-4 clients adding due elements back to back while client 0 calls Shutdown) and for TaskExecutor.Cancel(id) racing with the start of the task under heap-lock contention. evaluations = scheduled elements whose whole life was checked at structural quiescence; distinct_nontrivial = distinct (scenario, kind, workers, max size, flags, clients, shutdown mode, observed windows) of runs in which at least one element was delivered or prevented")
+	c.SetRule("a run drives one real timed.Queue / Executor / TaskExecutor: either a scripted gated schedule (re-schedule an identifier while its callback is held at a gate; Cancel(id) while the callback is held; Cancel while a worker is parked in Poll's select holding the element, before and after Shutdown; Cancel of an element in the heap; size bound filled without a poller; bounded queue (max 1-3) kept full behind gated workers, then a pending identifier re-scheduled with an earlier/equal/later time, or a new element added after a Cancel freed a slot; every entry point (ExecuteAt / ExecuteAfter) as first and as rescheduling call of one identifier with instants/delays from {far negative, -1ns, 0, +1ns, small, far future, zero Time, past} behind gated workers and on an idle executor; far-future (year 2262 boundary +-1 s, 3000, 9999), far-past (before 1677, year 1, zero Time) and UTC / fixed-zone / no-monotonic representations mixed with due elements in one heap, added in seeded order while all workers are gated; every Shutdown flag combination with pending elements) or a seeded random history (1-4 clients x 3-8 operations: Add/ExecuteAt with offsets -5..+40 ms, element Cancel, Cancel(id), gate openings, jitter; 1-4 workers; max size 0/2/5; every flag combination; Shutdown after or concurrent with the clients), or an idle-burst schedule (2-16 workers all parked below Poll; 1-3 bursts of 2..k back-to-back Add / ExecuteAt / ExecuteAfter calls from one or two goroutines mixing elements that are due when added, due elements whose callback blocks at a gate, far-future and a few near-future ones, at most k-1 workers consumed; after each burst a stable point is judged by counting: pending - Size() bounds the elements held inside Poll, so more workers below Poll than that = a provably idle worker, and a born-due element that cannot be held must not exist), plus timer-free stress histories for one window (2-4 clients adding due elements back to back while client 0 calls Shutdown) and for TaskExecutor.Cancel(id) racing with the start of the task under heap-lock contention. evaluations = scheduled elements whose whole life was checked at structural quiescence; distinct_nontrivial = distinct (scenario, kind, workers, max size, flags, clients, shutdown mode, observed windows) of runs in which at least one element was delivered or prevented")
 	scripts := len(scriptList())
 	nPlain := c.Pick(2400, 32000)
 	nRace := c.Pick(1200, 16000)
@@ -344,6 +356,10 @@ func parent(c *vf.Ctx) {
 	nCStress := c.Pick(3000, 45000)
 	for first := 0; first < nCStress; first += 1000 {
 		jobs = append(jobs, job{"cstress", []string{strconv.Itoa(first), "1000"}, first%3000 == 2000, 1000})
+	}
+	nBurst := c.Pick(480, 12000)
+	for first := 0; first < nBurst; first += 40 {
+		jobs = append(jobs, job{"burst", []string{strconv.Itoa(first), "40"}, first%120 == 80, 40})
 	}
 	par := max(2, min(8, runtime.NumCPU()/2))
 	vf.Parallel(len(jobs), par, func(i int) {
@@ -396,6 +412,10 @@ func parent(c *vf.Ctx) {
 	c.Require("not_early_confirmed", 1000)
 	c.Require("early_allowed_by_ignore_flag", 10)
 	c.Require("quiescent_points", 1000)
+	c.Require("idle_burst_runs", c.Pick(480, 12000))
+	c.Require("idle_burst_points_idle_and_consumed_workers_together", c.Pick(400, 10000))
+	c.Require("idle_burst_runs_due_delivered_next_to_consumed_workers", c.Pick(300, 7500))
+	c.Require("idle_burst_shapes", c.Pick(150, 1500))
 	c.Assume("a goroutine that runtime.Stack reports as parked in sync.Cond.Wait / select / chan receive has not passed that point (snapshots are stop-the-world consistent)")
 	c.Assume("time.Now() monotonic readings are non-decreasing across goroutines; a delivery instant read after the hand-over is never earlier than the hand-over")
 }
